@@ -1,7 +1,7 @@
 (* Props/C09.v — the property theorems for C09 (genomic arrays are exact, lossless views of dense
    per-base arrays).  Only statements, `exact <lemma>` and Print Assumptions live here. *)
 From Coq Require Import ZArith List Bool.
-From BNP Require Import Base.Prims Model.C09 Proofs.C09 Proofs.C09_depth Proofs.C09_genome Gen.C09 Bridge.C09.
+From BNP Require Import Base.Prims Model.C09 Proofs.C09 Proofs.C09_depth Proofs.C09_genome Proofs.C09_mask Model.C09_pileup Proofs.C09_pileup Proofs.C09_pileup_abs Gen.C09 Bridge.C09.
 Import ListNotations.
 Open Scope Z_scope.
 
@@ -210,6 +210,131 @@ Theorem C09_mask_end_to_end_partial : forall sizes recs,
 Proof. exact mask_genome_full. Qed.
 Print Assumptions C09_mask_end_to_end_partial.
 
+(* G4': get_mask end to end, NO hypothesis on the merge step (round 6).  For every interval multiset — any order,
+   overlapping, nested, touching, duplicated, zero-length, at chromosome ends — on a genome of any number of chromosomes
+   (iv_ok: known chromosome, 0 <= start < chromosome size, start <= stop <= chromosome size, i.e. what
+   GlobalOffset.start_ends_from_intervals accepts): the shift to global coordinates succeeds, get_boolean_mask (stable sort
+   on start, merge_intervals, drop empty, from_intervals) succeeds, and to_dict() is, per chromosome, the dense Boolean array
+   "base covered by some interval" of the chromosome's length.  The merge walk of Model/C09.v is the scan [go 0] of
+   Proofs/C08_merge.v; its correctness lemmas are imported from C08 (Proofs/C09_mask.v). *)
+Theorem C09_mask_end_to_end : forall sizes recs,
+  all_pos sizes = true -> sizes <> [] -> (forall r, In r recs -> iv_ok sizes r) ->
+  exists r, to_global sizes recs = Some (glob sizes recs)
+            /\ boolean_mask (glob sizes recs) (total_size sizes) = Some (KB, r)
+            /\ model_to_dict sizes r = spec_mask sizes recs.
+Proof. exact mask_end_to_end. Qed.
+Print Assumptions C09_mask_end_to_end.
+(* the three facts the _partial theorem assumed, now proved for every flat interval multiset inside [0, size] *)
+Theorem C09_mask_merge_facts : forall recs size, 0 <= size ->
+  (forall r, In r recs -> 0 <= st r /\ st r <= en r /\ en r <= size) ->
+  let m := filter (fun '(s, e) => negb (s =? e)) (merge_sorted (sort_by_start recs)) in
+  sorted_disjoint 0 (iv_recs vone m) = true /\ all_le size (iv_recs vone m) = true
+  /\ (forall p, any_at (iv_recs vone m) p = any_at recs p).
+Proof. exact mask_merge_facts. Qed.
+Print Assumptions C09_mask_merge_facts.
+(* G4'': back-conversion of the mask: get_data() of get_mask() (the True runs per chromosome) gives rows in genome order, per
+   chromosome sorted, non-overlapping and inside the chromosome, which expand (False elsewhere) to the same per-chromosome mask. *)
+Theorem C09_mask_back_conversion : forall sizes recs,
+  all_pos sizes = true -> sizes <> [] -> (forall r, In r recs -> iv_ok sizes r) ->
+  exists r, boolean_mask (glob sizes recs) (total_size sizes) = Some (KB, r)
+    /\ let rows := model_get_data sizes KB r in
+       chroms_sorted rows = true
+       /\ (forall c, 0 <= c < len sizes ->
+             sorted_disjoint 0 (on_chrom c rows) = true /\ all_le (nthZ sizes c) (on_chrom c rows) = true)
+       /\ spec_track vzero sizes rows = spec_mask sizes recs.
+Proof. exact mask_back_conversion. Qed.
+Print Assumptions C09_mask_back_conversion.
+(* non-vacuity: unsorted, nested, duplicated, touching (also across the chromosome border), zero-length intervals, an empty
+   chromosome in the middle; the hypotheses hold and the executable model gives the per-chromosome mask *)
+Example C09_nonvacuous_mask_end_to_end :
+  let sizes := [5; 2; 3] in
+  let recs := [(2, 0, 1, vone); (0, 3, 5, vone); (0, 1, 4, vone); (0, 2, 3, vone); (0, 1, 4, vone); (2, 1, 1, vone); (0, 4, 5, vone); (2, 1, 3, vone)] in
+  all_pos sizes = true /\ forallb (fun '(c, s, e, _) => (0 <=? c) && (c <? len sizes) && (0 <=? s) && (s <? nthZ sizes c) && (s <=? e) && (e <=? nthZ sizes c)) recs = true
+  /\ match boolean_mask (glob sizes recs) (total_size sizes) with
+     | Some (KB, r) => model_to_dict sizes r = spec_mask sizes recs
+                       /\ model_to_dict sizes r = [[vzero; vone; vone; vone; vone]; [vzero; vzero]; [vone; vone; vone]]
+                       /\ model_get_data sizes KB r = [(0, 1, 5, vone); (2, 0, 3, vone)]
+                       /\ spec_track vzero sizes (model_get_data sizes KB r) = spec_mask sizes recs
+     | _ => False end.
+Proof. vm_compute. repeat split; reflexivity. Qed.
+
+(* P1 (round 6): the flat pileup as the code builds it (Model/C09_pileup.v: one row of events per interval — 0 if start > 0,
+   start +1, stop -1 if stop < size —, stable sort on position, running sum, the array length appended, empty runs removed
+   keeping the last of equal positions, the constructor's assertions).  For every interval multiset inside [0, size]
+   (overlapping, nested, touching, duplicated — multiplicity field —, zero-length, starting at 0, ending at size, or empty):
+   the constructor succeeds, the run-length array is well-formed, has length size, and its expansion is, base by base, the
+   number of rows covering the base. *)
+Theorem C09_pileup_events_flat : forall recs size, 0 < size -> (forall r, In r recs -> row_ok size r) ->
+  exists r, pileup_events recs size = Some (KI, r) /\ wf_rle r = true /\ rle_len r = size
+            /\ expand r = tabulate (count_at recs) 0 size.
+Proof. exact pileup_events_spec. Qed.
+Print Assumptions C09_pileup_events_flat.
+(* P2: get_intervals(..).get_pileup().to_dict() end to end on a genome of any number of chromosomes: the shift succeeds, the
+   event pipeline succeeds on the global rows, and every chromosome's array is the per-base coverage count of that
+   chromosome's intervals (prow_ok: what GlobalOffset accepts, start <= stop, multiplicity >= 0). *)
+Theorem C09_pileup_end_to_end : forall sizes recs,
+  all_pos sizes = true -> sizes <> [] -> (forall r, In r recs -> prow_ok sizes r) ->
+  exists r, to_global sizes recs = Some (glob sizes recs)
+            /\ pileup_events (glob sizes recs) (total_size sizes) = Some (KI, r)
+            /\ wf_rle r = true /\ rle_len r = total_size sizes
+            /\ model_to_dict sizes r = spec_pileup sizes recs.
+Proof. exact pileup_end_to_end. Qed.
+Print Assumptions C09_pileup_end_to_end.
+(* P3: back-conversion of the pileup: get_data() of that array gives rows in genome order, per chromosome sorted,
+   non-overlapping and inside the chromosome, which expand to the same per-chromosome coverage arrays. *)
+Theorem C09_pileup_back_conversion : forall sizes recs,
+  all_pos sizes = true -> sizes <> [] -> (forall r, In r recs -> prow_ok sizes r) ->
+  exists r, pileup_events (glob sizes recs) (total_size sizes) = Some (KI, r)
+    /\ let rows := model_get_data sizes KI r in
+       chroms_sorted rows = true
+       /\ (forall c, 0 <= c < len sizes ->
+             sorted_disjoint 0 (on_chrom c rows) = true /\ all_le (nthZ sizes c) (on_chrom c rows) = true)
+       /\ spec_track vzero sizes rows = spec_pileup sizes recs.
+Proof. exact pileup_back_conversion. Qed.
+Print Assumptions C09_pileup_back_conversion.
+(* P4: the abstract pileup model of Model/C09.v (events = the distinct interval end points with 0 and size, value = coverage at
+   the run start), which the correspondence evaluates for interval sets of more than pileup_row_limit = 48 rows, expands to the
+   per-base coverage count as well ... *)
+Theorem C09_pileup_abstract_flat : forall recs size, 0 < size -> (forall r, In r recs -> 0 <= st r /\ st r <= en r /\ en r <= size) ->
+  exists r, pileup recs size = Some (KI, r) /\ wf_rle r = true /\ rle_len r = size
+            /\ expand r = tabulate (count_at recs) 0 size.
+Proof. exact pileup_abs_spec. Qed.
+Print Assumptions C09_pileup_abstract_flat.
+(* ... so the pileup model in force in the correspondence (event pipeline up to 48 rows, abstract model beyond) gives, for
+   every interval multiset on every genome, per chromosome the coverage count of that chromosome's intervals. *)
+Theorem C09_pileup_in_force_end_to_end : forall sizes recs,
+  all_pos sizes = true -> sizes <> [] -> (forall r, In r recs -> prow_ok sizes r) ->
+  exists r, to_global sizes recs = Some (glob sizes recs)
+            /\ pileup_in_force (glob sizes recs) (total_size sizes) = Some (KI, r)
+            /\ wf_rle r = true /\ rle_len r = total_size sizes
+            /\ model_to_dict sizes r = spec_pileup sizes recs.
+Proof. exact pileup_in_force_end_to_end. Qed.
+Print Assumptions C09_pileup_in_force_end_to_end.
+(* non-vacuity of the beyond-the-limit branch: 65537 rows (three distinct intervals with multiplicities) on sizes [3; 9; 6] *)
+Example C09_nonvacuous_pileup_big :
+  let sizes := [3; 9; 6] in
+  let recs := [(0, 1, 3, (21846, 0)); (1, 0, 9, (21846, 0)); (2, 2, 2, (1, 0)); (1, 4, 6, (21844, 0))] in
+  (n_rows (glob sizes recs) <=? pileup_row_limit) = false
+  /\ match pileup_in_force (glob sizes recs) (total_size sizes) with
+     | Some (KI, r) => model_to_dict sizes r = spec_pileup sizes recs
+                       /\ nth 1 (model_to_dict sizes r) [] = [(21846,0); (21846,0); (21846,0); (21846,0); (43690,0); (43690,0); (21846,0); (21846,0); (21846,0)]
+     | _ => False end.
+Proof. vm_compute. repeat split; reflexivity. Qed.
+(* non-vacuity: duplicated (multiplicity 2), nested, touching (also across a chromosome border), zero-length rows, rows at
+   chromosome starts and ends, an empty chromosome in the middle *)
+Example C09_nonvacuous_pileup_end_to_end :
+  let sizes := [5; 2; 3] in
+  let recs := [(2, 0, 1, (1, 0)); (0, 3, 5, (1, 0)); (0, 1, 4, (2, 0)); (0, 2, 3, (1, 0)); (2, 1, 1, (1, 0)); (0, 4, 5, (1, 0)); (2, 1, 3, (1, 0))] in
+  all_pos sizes = true /\ forallb (fun '(c, s, e, v) => (0 <=? c) && (c <? len sizes) && (0 <=? s) && (s <? nthZ sizes c) && (s <=? e) && (e <=? nthZ sizes c) && (0 <=? fst v)) recs = true
+  /\ match pileup_events (glob sizes recs) (total_size sizes) with
+     | Some (KI, r) => model_to_dict sizes r = spec_pileup sizes recs
+                       /\ model_to_dict sizes r = [[(0,0); (2,0); (3,0); (3,0); (2,0)]; [(0,0); (0,0)]; [(1,0); (1,0); (1,0)]]
+                       /\ fst r = [0; 1; 2; 3; 4; 5; 7; 8; 10]
+                       /\ pileup (glob sizes recs) (total_size sizes) = Some (KI, r)
+                       /\ spec_track vzero sizes (model_get_data sizes KI r) = spec_pileup sizes recs
+     | _ => False end.
+Proof. vm_compute. repeat split; reflexivity. Qed.
+
 (* E: converse of C09_expression_pointwise_partial — whenever the dense (NumPy) evaluation of a tree is defined, the
    run-length evaluation is defined, has the same dtype kind, is well-formed and expands to the dense result.  Together:
    the two evaluations are defined on exactly the same trees and agree. *)
@@ -351,6 +476,17 @@ Proof.
           | apply use_iv_slots; assumption ].
 Qed.
 Print Assumptions C09_source_tie.
+
+(* Source tie of the pileup (round 6): the empty-set test, the empty-set result and the hand-over skeleton of
+   arithmetics/intervals.py get_pileup and of GenomicIntervalsFull.get_pileup, regenerated from /repo on this run, are the
+   named formulas Model/C09_pileup.v is written with.  (The event construction itself is npstructures code: named modelling
+   assumption in Model/C09_pileup.v, validated by the correspondence check.) *)
+Theorem C09_pileup_source_tie :
+  (forall n, gen_pu_is_empty n = m_pu_is_empty n)
+  /\ (forall size, gen_pu_empty_events size = m_pu_empty_events size) /\ gen_pu_empty_values = m_pu_empty_values
+  /\ gen_pu_shape = m_pu_shape /\ gen_gpu_shape = m_gpu_shape.
+Proof. exact (conj b_pu_is_empty (conj b_pu_empty_events (conj b_pu_empty_values (conj b_pu_shape b_gpu_shape)))). Qed.
+Print Assumptions C09_pileup_source_tie.
 
 (* non-vacuity: the docstring example of Genome.get_track (chr1 of size 20 with records [0,5)=1, [10,15)=2)
    meets the hypotheses of T2, and the executable model really produces the dense array through
